@@ -136,6 +136,17 @@ def api_objects(ctx):
             if comp == CompressionAlgorithm.ZLIB:
                 out.append(('encrypted message #%d to key' % n, bytes(k.pubkey.encrypt(m))))
     out.append(('passphrase-encrypted message', bytes(pgpy.PGPMessage.new(b'pw message').encrypt('pw'))))
+    # file names at and beyond what the one-octet name length can hold (255 octets), ASCII and not: a name that does not fit may be refused
+    # (nothing emitted - outside the property), but whatever IS emitted parses back
+    for nm in ('n' * 255, 'n' * 256, '\u00e9' * 127 + 'x', '\u00e9' * 128, 'x' + '\u00e9' * 127, '\u2713' * 85, '\u2713' * 86, 'ab' + '\u2713' * 85, '\U0001f511' * 64):
+        for comp in (CompressionAlgorithm.Uncompressed, CompressionAlgorithm.ZIP):
+            try:
+                m = pgpy.PGPMessage.new(b'named content', compression=comp)
+                m._message.filename = nm
+                m._message.update_hlen()
+                out.append(('message with a file name of %d characters / %d octets %s' % (len(nm), len(nm.encode('utf-8')), comp.name), bytes(m)))
+            except Exception as ex:
+                ctx.note('file name of %d octets refused: %s' % (len(nm.encode('utf-8')), repr(ex)[:60]))
     return out
 
 
